@@ -15,6 +15,8 @@ syntactic shape raises SiteError, which the build records as a broken obligation
     translated by py2v from the source, the strategy bodies are pinned by their exact text.
  3. `s_td_newshape_a`, `s_td_newshape_b`, `s_td_shortcut` — the 2-d target shapes of tensordot's
     reshapes and its zero-size shortcut condition (any(dim == 0 ...) over exactly those two tuples).
+ 3b. `s_td_shortcut_kinds` — what kind of object that zero-size block returns for every operand kind pair and
+    return_type (abstract execution of its statements): it must honour the requested return type.
  4. `s_dot_index_allocs`, `s_coo_indptr_dtype_a/b` — the dtype of every pointer / index / counter array
     allocated in `_dot` (the COO -> CSR row pointers) and in the product kernels: they hold cumulative
     counts of stored elements, so they must not be allocated in an operand's (possibly narrow)
@@ -55,7 +57,7 @@ KERNELS = {  # factory -> (code when called on (a, b), code when called on (b, a
     "_dot_ndarray_coo_type": (13, None), "_dot_ndarray_coo_type_sparse": (14, None),
 }
 NP_DOT = 15
-SKIP_ASSIGN_CALLS = ("np.empty",)          # buffers for the COO indptr computation
+SKIP_ASSIGN_CALLS = ("np.empty", "np.result_type")          # buffers for the COO indptr computation, dtypes
 
 
 class Return(Exception):
@@ -94,6 +96,8 @@ class Interp:
             return ("tuple", [self.ev(x) if not isinstance(x, ast.Attribute) else ("buf",) for x in e.elts])
         if isinstance(e, ast.Subscript) and src == "out_shape[::-1]":
             return ("shape",)
+        if src == "np.ndarray":
+            return ("rtconst", "ND")
         if isinstance(e, ast.Attribute):
             base = self.ev(e.value)
             if e.attr == "T":
@@ -217,7 +221,11 @@ class Interp:
                 if isinstance(t, ast.Subscript):        # a_indptr[0] = 0
                     continue
                 v = self.ev(s.value)
-                if isinstance(t, ast.Name):
+                if isinstance(t, ast.Name) and t.id == "return_type":
+                    if v[0] != "rtconst":
+                        raise SiteError(f"assignment `{U(s)}`")
+                    self.env["return_type"] = v[1]
+                elif isinstance(t, ast.Name):
                     self.env[t.id] = v
                 elif isinstance(t, ast.Tuple):
                     for x in t.elts:
@@ -336,6 +344,32 @@ def td_shortcut(fn):
     return tuples, test
 
 
+def td_shortcut_kinds(fn):
+    """what kind of object the zero-size block of tensordot returns, for every operand kind pair and return_type
+    (abstract execution of the block's statements)"""
+    blk = None
+    for s in fn.body:
+        if isinstance(s, ast.If) and "chain(" in U(s.test):
+            blk = s.body
+    if blk is None:
+        raise SiteError("tensordot: zero-size block not found")
+    rows = []
+    for ka in ("coo", "g0", "g1", "nd"):
+        for kb in ("coo", "g0", "g1", "nd"):
+            for rt in (None, "COO", "GCXS", "ND"):
+                it = Interp(ka, kb, rt, 0, False)
+                try:
+                    it.run(blk)
+                    raise SiteError("tensordot: the zero-size block fell off its end")
+                except Return as r:
+                    v = r.v
+                if v is None or v[0] not in ("coo", "nd", "gcxs"):
+                    raise SiteError(f"tensordot: the zero-size block returns {v}")
+                rk = v[0] if v[0] != "gcxs" else {0: "g0", 1: "g1", "auto": "gauto"}[v[1]]
+                rows.append((KIND_CODE[ka], KIND_CODE[kb], RT_CODE[rt], RK_CODE[rk]))
+    return rows
+
+
 # ---------------------------------------------------------------------------- 4. index-array allocations
 INDEX_NAMES = ("a_indptr", "b_indptr", "indptr", "indices", "coords", "mask", "next_")
 ALLOC_FUNCS = ("_dot", "_csr_csr_count_nnz", "_csc_ndarray_count_nnz", "_dot_csr_csr_type", "_dot_csr_ndarray_type_sparse",
@@ -377,6 +411,7 @@ def generate(repo):
     mm_coq, mm_tests = matmul_case(_func(tree, "matmul"))
     tuples, sc_test = td_shortcut(_func(tree, "tensordot"))
     allocs = index_allocs(tree)
+    sc_kinds = td_shortcut_kinds(_func(tree, "tensordot"))
     h = hashlib.sha256((U(_func(tree, "_dot")) + U(_func(tree, "matmul")) + U(_func(tree, "tensordot"))).encode()).hexdigest()[:16]
     out = ["(* Gen/S_dot.v — generated by tools/sitegen/dot.py from sparse/numba_backend/_common.py (_dot, matmul,",
            f"   tensordot; srchash={h}).  Do not edit. *)",
@@ -405,6 +440,11 @@ def generate(repo):
     out.append("Definition s_td_newshape_b (N2 : Z) : list Z := [%s]." % "; ".join(tuples["newshape_b"]))
     out.append("Definition s_td_shortcut (N2a N2b : Z) : bool :=")
     out.append("  existsb (fun dim => dim =? 0) (s_td_newshape_a N2a ++ s_td_newshape_b N2b).")
+    out.append("")
+    out.append("(* tensordot's zero-size block: (kind of a, kind of b, return_type, kind of the returned object), codes as in s_dot_table *)")
+    out.append("Definition s_td_shortcut_kinds : list (Z * Z * Z * Z) := [")
+    out.append(";\n".join(f"  ({a_}, {b_}, {r_}, {k_})" for (a_, b_, r_, k_) in sc_kinds))
+    out.append("].")
     out.append("")
     out.append("(* dtypes of the pointer / index / counter arrays allocated in _dot and in the product kernels:")
     out.append("   0 np.intp | 1 the operand's coordinate dtype (may be narrow) | 2 the data dtype | 3 no dtype= (platform integer) *)")
